@@ -145,6 +145,31 @@ func pairScenario(a, b []string) string {
 	if da2 == db {
 		return "re-created A aliases B"
 	}
+	if lv := find(m, a); lv == nil || lv.Value != da2 || m.FindLabelValueOrNil(a) != lv {
+		return "re-created A is not the datum that lookup and enumeration show for A"
+	}
+	if datum.GetInt(da2) != 0 {
+		return "re-created A carries the value of the deleted datum"
+	}
+	// delete A directly after looking it up, then look it up again: the tuple must name a new,
+	// registered, zero-valued datum (not the deleted one)
+	datum.SetInt(da2, 5, ts)
+	if x, _ := m.GetDatum(a...); x != da2 {
+		return "A read back as another datum"
+	}
+	if err := m.RemoveDatum(a...); err != nil {
+		return "remove A (2): " + err.Error()
+	}
+	da3, _ := m.GetDatum(a...)
+	if lv := find(m, a); lv == nil || lv.Value != da3 || m.FindLabelValueOrNil(a) != lv {
+		return "A looked up right after its deletion names a datum that is not registered for A (the deleted one)"
+	}
+	if datum.GetInt(da3) != 0 {
+		return "A looked up right after its deletion still carries the deleted value"
+	}
+	if lb = find(m, b); lb == nil || lb.Value != db || datum.GetInt(db) != 2 {
+		return "delete/re-create of A touched B"
+	}
 	return ""
 }
 
